@@ -37,7 +37,9 @@ RULE = ("Each run is a seeded history of 2-4 clients in one interpreter, each ow
         "refinement, initial allocation, refine/uniform/griddify/must_be_refined, orthogon recognition and "
         "touches/overlap/find_location on the design's own rectangles, SAT encodings (the C07 operation set), legaliser "
         "model construction with the verdict vector of every equation, Strop decomposition; designs are 'ordinary' or "
-        "'tolerance-edge' (one gap/overlap at 1e-13..1e-4 of the size); faults: reject, io, abort. Every client is "
+        "'tolerance-edge' (one gap/overlap at 1e-13..1e-4 of the size); rarely a 'bulk' client whose ordinary work is large "
+        "(unrelated encodings taking the diagram store beyond 2^16 nodes; an allocation of >1000 cells), most of the time "
+        "scheduled before the others; faults: reject, io, abort. Every client is "
         "re-executed alone in a fresh forked child and compared operation by operation. Non-trivial: >=2 clients with "
         ">=2 compared operations each; distinct = BLAKE2 signature of the schedule (client, op kind, outcome class, fault).")
 COMPONENTS = {
@@ -208,8 +210,18 @@ def _gen_reject_client(r, scale_exp, family):
     """A client whose only operation is the load of an ill-formed document that is rejected after the loader has already
     touched process-wide state (hard module with grossly overlapping rectangles; die region sticking out)."""
     die = designs.gen_die(r, family=family, scale_exp=scale_exp, max_regions=0)
-    what = r.choice(["hard_overlap", "region_outside", "unknown_net_module", "big_unencodable_constraint"])
+    what = r.choice(["hard_overlap", "region_outside", "unknown_net_module", "big_unencodable_constraint", "alloc_overlap"])
     return {"kind": "reject", "die": die, "what": what, "ops": [{"op": "load_bad"}]}
+
+
+def _gen_bulk_client(r, what):
+    """A client whose work is ordinary but large: unrelated constraint encodings that take the process-wide diagram store
+    beyond 2^16 nodes, or an allocation of more than a thousand cells."""
+    if what == "flood":
+        return {"kind": "bulk", "ops": [{"op": "flood", "target": (1 << 16) + r.choice([4, 100, 3000])}]}
+    gx = r.randint(26, 34)
+    gy = (1001 + r.randint(0, 60)) // gx + 1
+    return {"kind": "bulk", "ops": [{"op": "big_alloc", "gx": gx, "gy": gy, "unit": r.choice([1.0, 0.5, 10.0])}]}
 
 
 def gen_case(r, index, tier):
@@ -244,6 +256,22 @@ def gen_case(r, index, tier):
             else:
                 clients[r.choice([i for i in range(len(clients)) if clients[i] is not src])] = twin
             nclients = len(clients)
+    # large histories (rare, they are slow): a bulk client precedes (most of the time) what the others do, and the others
+    # include at least one client of the kind whose process-wide tables the bulk work has filled
+    bulk = r.weighted([(None, 0.975), ("flood", 0.01), ("big_alloc", 0.015)])
+    if os.environ.get("VERIF_C20_BULK"):
+        bulk = os.environ["VERIF_C20_BULK"]
+    if bulk == "flood":
+        if not any(c["kind"] == "sat" for c in clients):
+            clients[r.below(len(clients))] = _gen_sat_client(r, nvars, sat_pool)
+    elif bulk == "big_alloc":
+        if not any(c["kind"] == "reject" and c["what"] == "alloc_overlap" for c in clients):
+            rc = _gen_reject_client(r, 0, "dyadic")
+            rc["what"] = "alloc_overlap"
+            clients[r.below(len(clients))] = rc
+    if bulk:
+        clients.append(_gen_bulk_client(r, bulk))
+        nclients = len(clients)
     # seeded interleaving
     pos = [0] * nclients
     live = list(range(nclients))
@@ -254,6 +282,9 @@ def gen_case(r, index, tier):
         pos[c] += 1
         if pos[c] >= len(clients[c]["ops"]):
             live.remove(c)
+    if bulk and r.chance(0.75):
+        head = [st for st in sched if st[0] == nclients - 1]
+        sched = head + [st for st in sched if st not in head]
     # scale mix with a definite order: now and then the largest design of the run does its loading and region
     # decomposition before anybody else starts (first-come process-wide state is then set by the large design)
     ds = [i for i, c in enumerate(clients) if c["kind"] == "design"]
@@ -600,6 +631,22 @@ class _SatClient:
         return {"models": sorted(cl.projected_models())}
 
 
+class _BulkClient:
+    def __init__(self, cid, c):
+        self.c = c
+        self.dead = False
+
+    def run(self, o):
+        if o["op"] == "flood":
+            c07_sat._flood(o["target"])
+            return "done"
+        A = _m["A"]
+        u = o["unit"]
+        cells = [[[(i + 0.5) * u, (j + 0.5) * u, u, u], {"M%d" % ((i + j) % 3): 0.5}] for i in range(o["gx"]) for j in range(o["gy"])]
+        a = A.Allocation(cells)
+        return {"cells": a.num_rectangles, "area": a.area("M0")}
+
+
 class _RejectClient:
     def __init__(self, cid, c):
         self.c = c
@@ -618,6 +665,8 @@ class _RejectClient:
             for i in range(600):
                 e = e + sm.newvar("r%d" % i)
             sm.pseudoboolencoding(e == 300)
+        elif w == "alloc_overlap":
+            _m["A"].Allocation([[[2 * u, 2 * u, 2 * u, 2 * u], {"B": 0.5}], [[3 * u, 2 * u, 2 * u, 2 * u], {"B": 0.5}]])
         elif w == "hard_overlap":
             N.Netlist({"Modules": {"B": {"hard": True, "rectangles": [[2 * u, 2 * u, 2 * u, 2 * u], [3 * u, 2 * u, 2 * u, 2 * u]]}}, "Nets": []})
         elif w == "region_outside":
@@ -650,6 +699,8 @@ def _exec(arg):
                     clients[c] = _DesignClient(c, desc, fs)
                 elif desc["kind"] == "sat":
                     clients[c] = _SatClient(c, desc)
+                elif desc["kind"] == "bulk":
+                    clients[c] = _BulkClient(c, desc)
                 else:
                     clients[c] = _RejectClient(c, desc)
             cl = clients[c]
